@@ -346,6 +346,30 @@ def observe_setup(args):
                             ws = sum(o2.weight * mdl.eval(o2._target, model_completion=True).as_long() for o2 in im.pb.objectives.values())
                             rec['weighted_value'] = ws
                             rec['finished'] = (last == 'unsat') if not isinstance(s, z3.Optimize) else True
+                        # z3.Optimize is not reliable by itself (finding F47): the problem is rebuilt and solved twice more, a value
+                        # counts as the configuration's answer when it shows every time
+                        if isinstance(s, z3.Optimize) and ('objective_value' in rec or 'weighted_value' in rec):
+                            key = 'objective_value' if 'objective_value' in rec else 'weighted_value'
+                            reps_ = [rec[key]]
+                            for _ in range(2):
+                                try:
+                                    im2 = impl.Impl(naming=naming)
+                                    if im2.run(prog)[0] != 'ok':
+                                        break
+                                    with contextlib.redirect_stdout(io.StringIO()), warnings.catch_warnings():
+                                        warnings.simplefilter('ignore')
+                                        sv2 = ps.SchedulingSolver(problem=im2.pb, max_time=15, **c)
+                                        sol_b = sv2.solve()
+                                    if not sol_b:
+                                        reps_.append(None)
+                                    elif key == 'objective_value':
+                                        reps_.append(sv2._model.eval(list(im2.pb.objectives.values())[0]._target, model_completion=True).as_long())
+                                    else:
+                                        reps_.append(sum(o2.weight * sv2._model.eval(o2._target, model_completion=True).as_long()
+                                                         for o2 in im2.pb.objectives.values()))
+                                except Exception:
+                                    break
+                            rec['repeats'] = reps_
                     else:
                         rec['verdict'] = 'unsat' if last == 'unsat' and len(checks) == 1 else ('unknown' if last == 'unknown' else
                                                                                               ('unsat' if last == 'unsat' else 'none'))
@@ -687,7 +711,12 @@ def cross_config(prop, res):
     for rec in recs:
         if rec['verdict'] == 'sat' and rec.get('second') == 'unsat':
             out.append(('second-solve-infeasible', rec['cfg'], 'solve() again on the same object reports no solution'))
-    vals = [(rec['cfg'], rec['objective_value']) for rec in recs if rec.get('finished') and 'objective_value' in rec]
+    unreliable = [rec['cfg'] for rec in recs if len(set(rec.get('repeats', [0]))) > 1]
+    if unreliable:
+        out.append(('builtin-optimizer-unreliable', None, [(rec['cfg'], rec['repeats']) for rec in recs if rec['cfg'] in unreliable]))
+    # the answer of a z3.Optimize configuration is compared only when it was the same on the three attempts
+    recs_v = [rec for rec in recs if rec['cfg'] not in unreliable]
+    vals = [(rec['cfg'], rec['objective_value']) for rec in recs_v if rec.get('finished') and 'objective_value' in rec]
     if len({v for _, v in vals}) > 1:
         kind = 'optimum-differs'
         counts = collections.Counter(v for _, v in vals)
@@ -698,7 +727,7 @@ def cross_config(prop, res):
             # finding F43: z3.Optimize fed through assert_and_track (debug mode) does not optimise reliably
             kind = 'optimum-differs-debug-optimize'
         out.append((kind, None, vals))
-    wvals = [(rec['cfg'], rec['weighted_value']) for rec in recs if rec.get('finished') and 'weighted_value' in rec
+    wvals = [(rec['cfg'], rec['weighted_value']) for rec in recs_v if rec.get('finished') and 'weighted_value' in rec
              and (rec['cfg'].get('optimizer', 'incremental') == 'incremental' or rec['cfg'].get('optimize_priority') == 'weight')]
     if len({v for _, v in wvals}) > 1:
         kind = 'weighted-optimum-differs'
